@@ -8,3 +8,4 @@ import Verif.Properties.C03Phases
 #print axioms C03.save_keeps_others
 #print axioms C03.nameInlinedSchemas_appends_fresh
 #print axioms C03.namePointers_appends_fresh
+#print axioms C03.importReferences_appends_fresh
